@@ -13,10 +13,14 @@ import (
 
 	addresscodec "cosmossdk.io/core/address"
 	storetypes "cosmossdk.io/store/types"
+	"github.com/cosmos/cosmos-sdk/codec"
+	codectypes "github.com/cosmos/cosmos-sdk/codec/types"
 	sdk "github.com/cosmos/cosmos-sdk/types"
+	paramtypes "github.com/cosmos/cosmos-sdk/x/params/types"
 	stakingtypes "github.com/cosmos/cosmos-sdk/x/staking/types"
 
 	"github.com/osmosis-labs/osmosis/osmomath"
+	lockuptypes "github.com/osmosis-labs/osmosis/v31/x/lockup/types"
 	"github.com/osmosis-labs/osmosis/v31/x/superfluid/types"
 )
 
@@ -102,7 +106,7 @@ func (c11Staking) GetAllValidators(ctx context.Context) ([]stakingtypes.Validato
 	return nil, nil
 }
 func (c11Staking) GetValidator(ctx context.Context, addr sdk.ValAddress) (stakingtypes.Validator, error) {
-	return stakingtypes.Validator{OperatorAddress: string(addr)}, nil
+	return stakingtypes.Validator{OperatorAddress: string(addr), Tokens: osmomath.OneInt(), DelegatorShares: osmomath.OneDec()}, nil
 }
 func (c11Staking) ValidateUnbondAmount(ctx context.Context, delAddr sdk.AccAddress, valAddr sdk.ValAddress, amt osmomath.Int) (osmomath.Dec, error) {
 	d := c11Get(ctx, "del|"+string(delAddr))
@@ -147,9 +151,15 @@ func (s c11Staking) InstantUndelegate(ctx context.Context, delAddr sdk.AccAddres
 	return coins, nil
 }
 func (c11Staking) GetDelegation(ctx context.Context, delAddr sdk.AccAddress, valAddr sdk.ValAddress) (stakingtypes.Delegation, error) {
-	return stakingtypes.Delegation{}, nil
+	d := c11Get(ctx, "del|"+string(delAddr))
+	if d.IsZero() {
+		return stakingtypes.Delegation{}, stakingtypes.ErrNoDelegation
+	}
+	return stakingtypes.Delegation{Shares: d.ToLegacyDec()}, nil
 }
-func (c11Staking) UnbondingTime(ctx context.Context) (time.Duration, error) { return 14 * 24 * time.Hour, nil }
+func (c11Staking) UnbondingTime(ctx context.Context) (time.Duration, error) {
+	return 14 * 24 * time.Hour, nil
+}
 func (c11Staking) GetParams(ctx context.Context) (stakingtypes.Params, error) {
 	return stakingtypes.Params{}, nil
 }
@@ -165,7 +175,7 @@ func (c11Staking) IterateDelegations(ctx context.Context, delegator sdk.AccAddre
 func (c11Staking) ValidatorAddressCodec() addresscodec.Codec { return nil }
 
 func c11ValStub(address string) (sdk.ValAddress, error) { return sdk.ValAddress(address), nil }
-func c11ValString(va sdk.ValAddress) string               { return string(va) }
+func c11ValString(va sdk.ValAddress) string             { return string(va) }
 
 type c11World struct {
 	k    *Keeper
@@ -281,4 +291,103 @@ func VH_C11_undelegate_and_burn() {
 	vAssert(!tokens.IsNegative() && tokens.LTE(amt), "burn:bonded-pool-shrinks-by-the-tokens-returned")
 	vAssert(after[4].Equal(before[4]) && after[5].Equal(before[5]), "burn:nothing-left-in-intermediary-or-module-account")
 	vAssert(after[0].Equal(before[0].Sub(tokens)) && after[1].Equal(before[1].Add(tokens)), "burn:supply-and-offset-move-oppositely-by-the-tokens-burned")
+}
+
+// ---------------------------------------------------------------- epoch refresh
+
+// model lockup keeper: only the accumulation query matters for the refresh
+type c11Lockup struct{ locked osmomath.Int }
+
+func (l c11Lockup) GetLocksLongerThanDurationDenom(ctx sdk.Context, denom string, duration time.Duration) []lockuptypes.PeriodLock {
+	return nil
+}
+func (l c11Lockup) GetAccountLockedLongerDurationDenom(ctx sdk.Context, addr sdk.AccAddress, denom string, duration time.Duration) []lockuptypes.PeriodLock {
+	return nil
+}
+func (l c11Lockup) GetAccountLockedLongerDurationDenomNotUnlockingOnly(ctx sdk.Context, addr sdk.AccAddress, denom string, duration time.Duration) []lockuptypes.PeriodLock {
+	return nil
+}
+func (l c11Lockup) GetPeriodLocksAccumulation(ctx sdk.Context, query lockuptypes.QueryCondition) osmomath.Int {
+	if query.Denom == c11SynthDenom && query.Duration == 14*24*time.Hour {
+		return l.locked
+	}
+	return osmomath.ZeroInt()
+}
+func (l c11Lockup) GetAccountPeriodLocks(ctx sdk.Context, addr sdk.AccAddress) []lockuptypes.PeriodLock {
+	return nil
+}
+func (l c11Lockup) GetPeriodLocks(ctx sdk.Context) ([]lockuptypes.PeriodLock, error) { return nil, nil }
+func (l c11Lockup) GetLockByID(ctx sdk.Context, lockID uint64) (*lockuptypes.PeriodLock, error) {
+	return nil, lockuptypes.ErrLockupNotFound
+}
+func (l c11Lockup) BeginForceUnlock(ctx sdk.Context, lockID uint64, coins sdk.Coins) (uint64, error) {
+	return 0, nil
+}
+func (l c11Lockup) ForceUnlock(ctx sdk.Context, lock lockuptypes.PeriodLock) error { return nil }
+func (l c11Lockup) PartialForceUnlock(ctx sdk.Context, lock lockuptypes.PeriodLock, coins sdk.Coins) error {
+	return nil
+}
+func (l c11Lockup) SplitLock(ctx sdk.Context, lock lockuptypes.PeriodLock, coins sdk.Coins, forceUnlock bool) (lockuptypes.PeriodLock, error) {
+	return lockuptypes.PeriodLock{}, nil
+}
+func (l c11Lockup) CreateLock(ctx sdk.Context, owner sdk.AccAddress, coins sdk.Coins, duration time.Duration) (lockuptypes.PeriodLock, error) {
+	return lockuptypes.PeriodLock{}, nil
+}
+func (l c11Lockup) SlashTokensFromLockByID(ctx sdk.Context, lockID uint64, coins sdk.Coins) (*lockuptypes.PeriodLock, error) {
+	return nil, nil
+}
+func (l c11Lockup) SlashTokensFromLockByIDSendUnderlyingAndBurn(ctx sdk.Context, lockID uint64, liquiditySharesInLock, underlyingPositionAssets sdk.Coins, poolAddress sdk.AccAddress) (*lockuptypes.PeriodLock, error) {
+	return nil, nil
+}
+func (l c11Lockup) GetSyntheticLockup(ctx sdk.Context, lockID uint64, suffix string) (*lockuptypes.SyntheticLock, error) {
+	return nil, nil
+}
+func (l c11Lockup) GetAllSyntheticLockupsByAddr(ctx sdk.Context, owner sdk.AccAddress) []lockuptypes.SyntheticLock {
+	return nil
+}
+func (l c11Lockup) GetAllSyntheticLockups(ctx sdk.Context) []lockuptypes.SyntheticLock { return nil }
+func (l c11Lockup) CreateSyntheticLockup(ctx sdk.Context, lockID uint64, suffix string, unlockDuration time.Duration, isUnlocking bool) error {
+	return nil
+}
+func (l c11Lockup) DeleteSyntheticLockup(ctx sdk.Context, lockID uint64, suffix string) error {
+	return nil
+}
+func (l c11Lockup) GetSyntheticLockupByUnderlyingLockId(ctx sdk.Context, lockID uint64) (lockuptypes.SyntheticLock, bool, error) {
+	return lockuptypes.SyntheticLock{}, false, nil
+}
+
+var c11SynthDenom string
+
+func c11ParamsStub(k Keeper, ctx sdk.Context) types.Params {
+	return types.Params{MinimumRiskFactor: osmomath.MustNewDecFromStr("0.5")}
+}
+
+// after the epoch refresh the intermediary account's stake equals the risk-adjusted OSMO value of the locks delegated
+// through it, whatever it was before (nothing, less, more), and the reported supply did not move
+func VH_C11_epoch_refresh() {
+	vConfig("lazy_math", 1)
+	vOverride("(github.com/osmosis-labs/osmosis/v31/x/superfluid/keeper.Keeper).GetParams", c11ParamsStub)
+	w := c11Setup(c11Staking{})
+	locked := c11Int("locked_shares", 0, 1000000000000)
+	c11SynthDenom = stakingSyntheticDenom(w.acc.Denom, w.acc.ValAddr)
+	w.k.lk = c11Lockup{locked}
+	if vNative() {
+		tkey := storetypes.NewTransientStoreKey("transient_params")
+		cdc := codec.NewProtoCodec(codectypes.NewInterfaceRegistry())
+		w.k.paramSpace = paramtypes.NewSubspace(cdc, codec.NewLegacyAmino(), w.k.storeKey, tkey, types.ModuleName).WithKeyTable(types.ParamKeyTable())
+		w.k.SetParams(w.ctx, types.Params{MinimumRiskFactor: osmomath.MustNewDecFromStr("0.5")})
+	}
+	w.k.SetSuperfluidAsset(w.ctx, types.SuperfluidAsset{Denom: w.acc.Denom, AssetType: types.SuperfluidAssetTypeLPShare})
+	w.k.SetOsmoEquivalentMultiplier(w.ctx, 1, w.acc.Denom, osmomath.MustNewDecFromStr("2.5"))
+	rep := w.reported()
+	before := w.snapshot()
+	w.k.RefreshIntermediaryDelegationAmounts(w.ctx, []types.SuperfluidIntermediaryAccount{w.acc})
+	vReach("reach")
+	after := w.snapshot()
+	// expected stake: x = round(2.5 * locked); stake = x - round(x * 0.5)
+	x := osmomath.MustNewDecFromStr("2.5").MulInt(locked).RoundInt()
+	want := x.Sub(x.ToLegacyDec().Mul(osmomath.MustNewDecFromStr("0.5")).RoundInt())
+	vAssert(after[2].Equal(want), "refresh:stake-equals-risk-adjusted-value-of-delegated-locks")
+	vAssert(w.reported().Equal(rep), "refresh:reported-osmo-supply-unchanged")
+	vAssert(after[4].Equal(before[4]) && after[5].Equal(before[5]), "refresh:nothing-left-in-intermediary-or-module-account")
 }
